@@ -190,8 +190,12 @@ class C10(Check):
         world_fault = dict(world, files=wf_files, results=results)
         plan = []
         seam_info = []
+        seen_targets = set()
         for sf in exp["seam_faults"]:
             target = paths[sf["file_pos"] % len(paths)]
+            if target in seen_targets:
+                continue  # at most one seam fault per file: keeps the narrow relaxation well defined
+            seen_targets.add(target)
             zp = "<T>/" + target
             op = {"vanish-before-read": "open-read", "read-eio": "open-read", "read-eacces": "open-read",
                   "transform-raise": "transform", "node-raise": "node"}[sf["kind"]]
@@ -232,14 +236,18 @@ class C10(Check):
                                       "traceback_tail": (flt["traceback"] or "")[-600:]})
             return v
         vanished = {s["file"] for s in info["seam"] if s["kind"] == "vanish-before-read"}
+        # "writes a valid report": schema + consistency with the run; content invariants that have nothing to do with the
+        # fault (a codemod's own line numbering) are C15's business and are reported there
         probs = [p for p in check_report(flt, info["world_fault_files"])
-                 if not (p[0] == "changeset-path-missing" and p[1].get("path") in vanished)]
+                 if not (p[0] == "changeset-path-missing" and p[1].get("path") in vanished) and p[0] != "line-number-outside-file"]
         if probs:
             add("invalid-report", probs[0][0], {"problems": probs[:3]})
         rr = results_by_codemod(ref["report"])
         rf = results_by_codemod(flt["report"])
         ids = flt["codemod_ids"]
-        fired = {(f["kind"]): f["fired"] for f in flt["stats"]["faults"]}
+        # per-fault firing information (the plan and info["seam"] are in the same order)
+        for s, st in zip(info["seam"], flt["stats"]["faults"]):
+            s["fired"] = st["fired"]
         # (1) bad files untouched
         for name, kind in info["bad"].items():
             if name in flt["changed"]:
@@ -249,7 +257,7 @@ class C10(Check):
         seam_cells = {}
         for s in info["seam"]:
             seam_cells[s["file"]] = s
-            if fired.get(s["kind"], 0) == 0:
+            if not s.get("fired"):
                 continue
             wr = [w for w in flt["writes"] if w["path"] == "<T>/" + s["file"] and w["ci"] == s["k"]]
             if wr:
@@ -285,7 +293,7 @@ class C10(Check):
                         if len(unf) < nfind:
                             add("findings-not-reported-unfixed", kind, {"file": name, "codemod": cid, "findings": nfind, "unfixed": len(unf)})
         for s in info["seam"]:
-            if fired.get(s["kind"], 0) == 0 or s["k"] >= len(ids):
+            if not s.get("fired") or s["k"] >= len(ids):
                 continue
             cid = ids[s["k"]]
             res = (rf.get(cid) or [{}])[0]
@@ -299,7 +307,7 @@ class C10(Check):
                 if len(unf) < nfind:
                     add("findings-not-reported-unfixed", s["kind"], {"file": s["file"], "codemod": cid, "findings": nfind, "unfixed": len(unf)})
         # (3) everything else as in the reference
-        excluded = set(info["bad"]) | {s["file"] for s in info["seam"] if fired.get(s["kind"], 0)}
+        excluded = set(info["bad"]) | {s["file"] for s in info["seam"] if s.get("fired")}
         for f in sorted(set(ref["changed"]) | set(flt["changed"])):
             if f in excluded:
                 continue
@@ -317,7 +325,7 @@ class C10(Check):
                     if path_rel in info["bad"]:
                         return False
                     s = seam_cells.get(path_rel)
-                    if s is not None and fired.get(s["kind"], 0) and ci_idx >= s["k"]:
+                    if s is not None and s.get("fired") and ci_idx >= s["k"]:
                         return False
                     return True
 
